@@ -113,6 +113,7 @@ impl UnitRunner for C15 {
   fn unit(&mut self, payload: &str, unit: u64, out: &mut WorkerOut) {
     if payload == "resolve" { self.resolve_unit(unit, out); return; }
     if payload == "nonfinite" { self.nonfinite_unit(unit, out); return; }
+    if payload == "contexts" { self.context_unit(unit, out); return; }
     let ki = (unit / 32) as usize;
     let ai = (unit % 32) as usize;
     if ki >= KINDS.len() { return; }
@@ -247,6 +248,51 @@ impl C15 {
   }
 }
 
+impl C15 {
+  /// The four range forms with their operands bound locally (function parameters, match-arm bindings, comprehension generators), every local
+  /// name shadowed by a global of another value: the range must be the one the same operands give as global variables.
+  fn context_unit(&mut self, unit: u64, out: &mut WorkerOut) {
+    let kinds = ["f64", "u8", "i64", "f32", "u64", "i8"];
+    let forms: [(&str, bool); 4] = [("a..b", false), ("a..=b", false), ("a..s..b", true), ("a..s..=b", true)];
+    let (ki, fi) = ((unit / 4) as usize, (unit % 4) as usize);
+    if ki >= kinds.len() { return; }
+    let kind = kinds[ki];
+    let (form, stepped) = forms[fi];
+    let avals = [1, 2]; let bvals = [2, 5, 6]; let svals = [1, 2, 3];
+    let mut s = Session::new();
+    // shadows: globals named like the locals, holding other values
+    for d in [format!("a<{}> := 4", kind), format!("s<{}> := 7", kind), format!("b<{}> := 9", kind), format!("z<{}> := 0", kind)] { if !s.run(&d).is_value() { out.count("context_setup_rejected"); return; } }
+    let mut n = 0usize;
+    for a in avals { for b in bvals { for st in if stepped { svals.to_vec() } else { vec![1] } {
+      n += 1;
+      let defs = [format!("ga{}<{}> := {}", n, kind, a), format!("gb{}<{}> := {}", n, kind, b), format!("gs{}<{}> := {}", n, kind, st)];
+      if defs.iter().any(|d| !s.run(d).is_value()) { out.count("context_setup_rejected"); continue; }
+      let (ga, gb, gs) = (format!("ga{}", n), format!("gb{}", n), format!("gs{}", n));
+      let top = form.replace("a", &ga).replace("b", &gb).replace("s", &gs);
+      // (replace order: "a" first would also hit the a of "ga": build the text from parts instead)
+      let top = if stepped { format!("{}..{}..{}{}", ga, gs, if form.contains("=") { "=" } else { "" }, gb) } else { format!("{}..{}{}", ga, if form.contains("=") { "=" } else { "" }, gb) };
+      let _ = top.len();
+      out.evaluations += 1;
+      let base = s.run(&format!("lcb{} := {}", n, top));
+      let mut vars = vec![crate::ctx::lv("a", &ga, kind)];
+      if stepped { vars.push(crate::ctx::lv("s", &gs, kind)); }
+      vars.push(crate::ctx::lv("b", &gb, kind));
+      let res = crate::ctx::eval_in_contexts(&mut s, n, &vars, form, &format!("[{}]", kind), "z..=z", true, false);
+      for (ctx, text, o) in res {
+        out.evaluations += 1;
+        let case = format!("[{}] a := 4; s := 7; b := 9 (globals); {} := {}; {} := {}; {} := {}; {}   versus r := {}", kind, ga, a, gb, b, gs, st, text, top);
+        match crate::ctx::differs(&base, ctx, &o) {
+          None => { if base.is_value() { out.nontrivial += 1; } out.count(&format!("context_agrees:{}", ctx)); }
+          Some(d) => {
+            // a context the implementation does not support for this kind at all is listed, not judged
+            out.fail(format!("C15|local-context-differs|{}:{}:{}", ctx, form, if is_float(kind) { "float" } else if is_unsigned(kind) { "unsigned" } else { "signed" }), case, d);
+          }
+        }
+      }
+    } } }
+  }
+}
+
 impl Check for C15 {
   fn id(&self) -> &'static str { "C15" }
   fn level(&self) -> &'static str { "exploration" }
@@ -265,6 +311,7 @@ impl Check for C15 {
     let mut jobs = range_jobs("", KINDS.len() as u64 * 32, 1);
     jobs.extend(range_jobs("resolve", 96, 8));
     jobs.extend(range_jobs("nonfinite", 2, 1));
+    jobs.extend(range_jobs("contexts", 24, 1));
     drive_ranges(cfg, rep, jobs);
     let supported = rep.out.sets.get("supported_kinds").cloned().unwrap_or_default();
     let before = rep.out.failures.len();
